@@ -209,15 +209,20 @@ def epoch_task(task):
         else:
             sh.bad("epoch", "epoch:to:%s" % c[1], "dconv %s -f %%s -> %r, expected %d" % (civ[k], got, e),
                    dict(argv=argv, input=civ[k], expected=e, observed=got), cls=c)
-    # @N and -i %s N -> civil (arguments)
-    for mode in ("@", "-i%s"):
+    # @N and -i %s N -> civil (arguments), and -i %s with the numbers as stdin lines
+    for mode in ("@", "-i%s", "-i%s<stdin"):
         for i in range(0, len(eps), 1500):
             ch = eps[i:i + 1500]
             if mode == "@":
                 argv = [str(bindir / "dconv"), "-f", "%FT%T", "--"] + ["@%d" % e for e in ch]
-            else:
+            elif mode == "-i%s":
                 argv = [str(bindir / "dconv"), "-i", "%s", "-f", "%FT%T", "--"] + ["%d" % e for e in ch]
-            r = run(argv, cpu=60, wall=300)
+            if mode == "-i%s<stdin":
+                ins = ["%d" % e for e in ch]
+                argv = [str(bindir / "dconv"), "-i", "%s", "-f", "%FT%T", "--"] + ins
+                r = run(argv[:argv.index("--")], stdin=("\n".join(ins) + "\n").encode(), cpu=60, wall=300)
+            else:
+                r = run(argv, cpu=60, wall=300)
             sh.procs += 1
             sh.check_san(r, "san", "epoch:san")
             outs, _ = align_lines([a for a in argv[argv.index("--") + 1:]], r)
